@@ -1,0 +1,20 @@
+//go:build verif
+
+package cloudwatch
+
+import (
+	"github.com/sirupsen/logrus"
+
+	"github.com/atlassian/gostatsd"
+)
+
+// VerifNewClientC17 builds a CloudWatch backend around the given API client (NewClient needs an
+// AWS configuration).
+func VerifNewClientC17(api CloudwatchClient, namespace string, disabled gostatsd.TimerSubtypes, logger logrus.FieldLogger) *Client {
+	return &Client{
+		logger:           logger,
+		cloudwatch:       api,
+		namespace:        namespace,
+		disabledSubtypes: disabled,
+	}
+}
